@@ -308,10 +308,12 @@ def run(prog: Program, tier: str) -> List[RuleResult]:
     from .c03 import domain_cache
 
     # the caching iterator behind every variable domain: a value lost from the cache is a solution lost from every later evaluation
-    from .c01 import ep_selected
+    from .c01 import ep_selected, cmp_apply
     from .c12 import arg_symbolic
 
     # a row whose selected value is falsy is a solution like any other
     return [ep_bound(prog), ep_gate(prog), or_form(prog), ep_neg(prog), domain_cache(prog), ep_selected(prog),
             # predicates are atoms of the fragment: an argument expression wrapped as a literal changes which assignments satisfy the atom
-            arg_symbolic(prog)]
+            arg_symbolic(prog),
+            # comparisons are the other atoms: the verdict is the operator applied to the operand values of this assignment
+            cmp_apply(prog)]
